@@ -13,7 +13,7 @@
  *   GEN <len>                             rand_bytes into a canaried buffer
  *   GENLOOP <n> <len>                     n requests, only the last one logged in full
  *   BNRAND <bits> <sign>                  bn_rand
- *   BNRANDMOD <hex bound>                 bn_rand_mod
+ *   BNRANDMOD <hex bound> [alias]         bn_rand_mod; alias: the result object is the bound object (in place)
  *   CTX <i>                               switch to context i (0..1)
  *   SNAP <slot> / RESTORE <slot>          copy the generator state out / back
  */
@@ -198,8 +198,13 @@ static void engine_run(void) {
 			RLC_TRY {
 				bn_new(a); bn_new(b);
 				bn_read_bin(b, tmp, (size_t)l);
-				bn_rand_mod(a, b);
-				log_bn("BNRANDMOD", a);
+				if (n >= 3 && strcmp(tok[2], "alias") == 0) {
+					bn_rand_mod(b, b);
+					log_bn("BNRANDMOD", b);
+				} else {
+					bn_rand_mod(a, b);
+					log_bn("BNRANDMOD", a);
+				}
 			} RLC_CATCH_ANY {
 				thrown = 1;
 			} RLC_FINALLY {
